@@ -44,6 +44,29 @@ impl CLCiphersuite for Toy {
     const s2: u32 = 552;
 }
 
+// A second small suite whose modulus length is NOT twice the security parameter (ln is only an upper bound in the trait):
+// code that derives the prime length from ln instead of SECPARAM behaves differently here.
+#[derive(Clone, PartialEq, Eq, Debug, Serialize, Deserialize)]
+pub struct Toy2 {}
+impl Ciphersuite for Toy2 {
+    type HashAlg = sha2::Sha256;
+}
+impl CLCiphersuite for Toy2 {
+    const SECPARAM: u32 = 192;
+    const QSEC: u32 = 19;
+    const ln: u32 = 448;
+    const lm: u32 = 256;
+    const lin: u32 = 256;
+    const le: u32 = Self::lm + 2;
+    const ls: u32 = Self::ln + Self::lm + Self::lin;
+    const RANGEPROOF_ALG: RangeProof = RangeProof::Boudot2000;
+    const t: u32 = 128;
+    const l: u32 = 40;
+    const s: u32 = 40;
+    const s1: u32 = 40;
+    const s2: u32 = 552;
+}
+
 fn z(t: &str) -> Integer {
     Integer::from_str_radix(t, 10).expect("integer")
 }
@@ -187,6 +210,7 @@ pub fn dispatch(op: &str, t: &[&str]) -> Option<Out> {
     }
     Some(match t[0] {
         "toy" => run::<Toy>(op, &t[1..]),
+        "toy2" => run::<Toy2>(op, &t[1..]),
         "cl1024" => run::<CL1024Sha256>(op, &t[1..]),
         "cl2048" => run::<CL2048Sha256>(op, &t[1..]),
         "cl3072" => run::<CL3072Sha256>(op, &t[1..]),
